@@ -12,6 +12,8 @@ thread_local! {
 }
 
 const ALPHA_A: [&str; 14] = ["'", "\"", "`", "\\", "$", "(", ")", "{", "}", "|", "&", ">", " ", "a"];
+// multi-byte characters next to the characters the tokenizer looks ahead for
+const ALPHA_C: [&str; 14] = ["|", "(", ")", "'", "\"", "\\", "$", " ", "é", "中", "a", ">", "&", ";"];
 const ALPHA_B: [&str; 14] = [";", "<", "*", "~", "#", ",", "..", "1", "+", "^", "=", "é", "$X", "2>&1"];
 
 fn jstr(s: &str) -> String {
@@ -135,12 +137,19 @@ pub fn main(args: &[String]) {
         let loc = info.location().map(|l| format!("{}:{}", l.file(), l.line())).unwrap_or_default();
         LAST_PANIC.with(|p| *p.borrow_mut() = loc);
     }));
+    if args.len() > 4 {
+        // an empty directory: `*` and `~` must not walk a big tree for every string
+        std::fs::create_dir_all(&args[4]).unwrap();
+        std::env::set_current_dir(&args[4]).unwrap();
+        std::env::set_var("HOME", &args[4]);
+    }
+    std::env::set_var("PATH", "/nonexistent-bin");
     std::env::set_var("X", "$X");
     std::env::set_var("Y", "$Z");
     std::env::set_var("Z", "$Y");
     v::set_step_budget(2000);
     v::set_exec_hook(Some(Box::new(|_cl, _capture| Some(v::CommandResult::new()))));
-    let alpha: &[&str] = if which == "A" { &ALPHA_A } else { &ALPHA_B };
+    let alpha: &[&str] = if which == "A" { &ALPHA_A } else if which == "C" { &ALPHA_C } else { &ALPHA_B };
     let mut sh = v::Shell::new();
     sh.previous_cmd = "prev cmd".to_string();
     let mut total: u64 = 0;
